@@ -50,6 +50,8 @@ type baseRecord struct {
 	orderedElementList []InfoElementWithValue
 	isDecoding         bool
 	len                int
+	// encodingErr is the first error hit when encoding the elements into the buffer.
+	encodingErr error
 	Record
 }
 
@@ -212,6 +214,9 @@ func (d *dataRecord) GetBuffer() []byte {
 		err := encodeInfoElementValueToBuff(element, d.buffer, index)
 		if err != nil {
 			klog.Error(err)
+			if d.encodingErr == nil {
+				d.encodingErr = err
+			}
 		}
 		index += element.GetLength()
 	}
@@ -220,6 +225,12 @@ func (d *dataRecord) GetBuffer() []byte {
 
 func (d *dataRecord) GetRecordLength() int {
 	return d.len
+}
+
+// GetEncodingError returns the error (if any) hit by GetBuffer when encoding the
+// elements of the record. The corresponding fields are not valid in the buffer.
+func (d *dataRecord) GetEncodingError() error {
+	return d.encodingErr
 }
 
 func (d *dataRecord) AddInfoElement(element InfoElementWithValue) error {
